@@ -249,16 +249,25 @@ loop:
 // > quotes in a row - as in Pascal. C-style escapes using the backslash
 // > character are not supported because they are not standard SQL.
 func readQuoted(close rune, s string, allowEscape bool) (string, int) {
-	for i, r := range s {
-		switch r {
-		case close:
-			if allowEscape && len(s) > i+1 && rune(s[i+1]) == close {
-				ss, si := readQuoted(close, s[i+2:], allowEscape)
-				return s[:i+1] + ss, i + si + 2
-			}
-			return s[:i], i + 1
-		default:
+	// (a loop, not a recursion per doubled quote: the text can be long)
+	var unescaped strings.Builder
+	start := 0
+	for i := 0; i < len(s); i++ {
+		if rune(s[i]) != close {
+			continue
 		}
+		if allowEscape && len(s) > i+1 && rune(s[i+1]) == close {
+			// a doubled quote stands for the quote itself
+			unescaped.WriteString(s[start : i+1])
+			i++
+			start = i + 1
+			continue
+		}
+		if start == 0 {
+			return s[:i], i + 1
+		}
+		unescaped.WriteString(s[start:i])
+		return unescaped.String(), i + 1
 	}
 	return "", -1
 }
